@@ -62,6 +62,11 @@ CLAIMS = {
          "(timeouts/durations <= 24 h, limits and counter values within u64), C13_unwrap (constructors cannot fail on validated distributions), C13_uniform_pre, "
          "C13_uniform_progress_partial (the Uniform rejection loop accepts the draw 0). Promptness is explored in child processes under scripted RNG prefixes; two genuine "
          "sampler defects found there (Binomial hang F11, Binomial panic F12) are recorded known findings.", "DESIGN.md section 4, C13"),
+
+ "C06": ("Theorems C06_thresholds (for every one of the 2^23 draw values k and every validated vector, sample_state chooses target j exactly when "
+         "thr S_(j-1) <= k < thr S_j, with S_j the f32 partial sums and thr S = ceil(S * 2^23) computed exactly; no transition beyond the last threshold), "
+         "C06_threshold_exact (k/2^23 < S <-> k < thr S, Flocq binary32), C06_draw_exact, C06_one (probability 1 is always taken), C06_none. The tie enumerates the "
+         "complete draw space on the real code and compares exact counts with the thresholds.", "DESIGN.md section 4, C06"),
 }
 
 NOT_YET = "check not built yet (in progress; planned per DESIGN.md section 7)"
